@@ -2,14 +2,283 @@ package main
 
 import (
 	"context"
+	"fmt"
+	"io"
+	"net/http"
+	"net/http/httptest"
+	"net/url"
 	"runtime"
+	"sync"
 	"time"
+
+	"github.com/fullstorydev/grpchan/httpgrpc"
+	"google.golang.org/grpc/codes"
+	"google.golang.org/grpc/metadata"
+	"google.golang.org/grpc/status"
 
 	"github.com/fullstorydev/grpchan/grpchantesting"
 	"google.golang.org/grpc"
 )
 
-func extraC03(r *Run) {}
+// ---------------------------------------------------------------------------
+// C03: metadata maps end to end, and the header codec against the Lean model
+
+func randKey(rng *Rng, bin bool) string {
+	alpha := "abcdefghijklmnopqrstuvwxyz0123456789-_."
+	n := 1 + rng.Intn(8)
+	b := make([]byte, n)
+	for i := range b {
+		b[i] = alpha[rng.Intn(len(alpha))]
+	}
+	k := "x" + string(b) // never a reserved or grpc- key
+	if bin {
+		k += "-bin"
+	}
+	return k
+}
+
+func randPrintable(rng *Rng, edgeSpace bool) string {
+	n := rng.Intn(12)
+	b := make([]byte, n)
+	for i := range b {
+		b[i] = byte(0x21 + rng.Intn(0x7e-0x21+1)) // printable ASCII without space
+		if i > 0 && i < n-1 && rng.Chance(15) {
+			b[i] = ' '
+		}
+	}
+	s := string(b)
+	if edgeSpace {
+		s = " " + s + " "
+	}
+	return s
+}
+
+func randMD(rng *Rng, edgeSpace bool) metadata.MD {
+	md := metadata.MD{}
+	for i := 0; i < rng.Intn(5); i++ {
+		bin := rng.Chance(40)
+		k := randKey(rng, bin)
+		for j := 0; j < 1+rng.Intn(3); j++ {
+			if bin {
+				v := rng.Bytes(rng.Intn(7))
+				if rng.Chance(30) {
+					v = append(v, 0x00, 0x0a, 0xff)
+				}
+				md[k] = append(md[k], string(v))
+			} else {
+				md[k] = append(md[k], randPrintable(rng, edgeSpace && rng.Chance(50)))
+			}
+		}
+	}
+	return md
+}
+
+// subsetMD: every key/value list of want appears unchanged in got (a transport may add keys of its own).
+func subsetMD(want, got metadata.MD) (bool, string) {
+	for k, vs := range want {
+		g := got[k]
+		if len(g) != len(vs) {
+			return false, sprintf("key %q: %d values, want %d (%q vs %q)", k, len(g), len(vs), g, vs)
+		}
+		for i := range vs {
+			if g[i] != vs[i] {
+				return false, sprintf("key %q value %d: %q, want %q", k, i, g[i], vs[i])
+			}
+		}
+	}
+	return true, ""
+}
+
+func mdHex(md metadata.MD) string { return canonMD(md) }
+
+func extraC03(r *Run) {
+	rng := r.Rng.Fork("extraC03")
+	// (1) unit: base64 / toHeaders / asMetadata against the Lean model
+	for i := 0; i < r.Budget(150, 4000); i++ {
+		v := rng.Bytes(rng.Intn(9))
+		if rng.Chance(20) {
+			v = append(v, 0x00, 0x0a, 0xff)
+		}
+		h := http.Header{}
+		httpgrpc.VerifToHeaders(metadata.MD{"k-bin": []string{string(v)}}, h, "")
+		enc := h.Get("k-bin")
+		r.Op(sprintf("C03 b64enc %s", hexOrDash(v)), hexOrDash([]byte(enc)))
+		md, err := httpgrpc.VerifAsMetadata(http.Header{"K-Bin": []string{enc}})
+		ans := "error"
+		if err == nil {
+			ans = hexOrDash([]byte(md["k-bin"][0]))
+		}
+		r.Op(sprintf("C03 b64dec %s", hexOrDash([]byte(enc))), ans)
+		r.Eval(sprintf("b64 %x", v), len(v)%3 != 0)
+		r.Count("unit:b64")
+		if err != nil || md["k-bin"][0] != string(v) {
+			r.Violate("http/metadata/bin-not-byte-exact", "'-bin' values byte-exact", sprintf("value %x came back as %q (err %v)", v, md["k-bin"], err), map[string]interface{}{"op": "unit-b64", "value_hex": hexOrDash(v)}, ans)
+		}
+		// malformed base64 must be an error, never a fabricated value
+		if rng.Chance(20) {
+			bad := enc + "*"
+			_, err := httpgrpc.VerifAsMetadata(http.Header{"K-Bin": []string{bad}})
+			a := "ok"
+			if err != nil {
+				a = "error"
+			}
+			r.Op(sprintf("C03 b64dec %s", hexOrDash([]byte(bad))), map[string]string{"ok": "accepted", "error": "error"}[a])
+		}
+	}
+	// (2) end to end: outgoing metadata -> handler; handler headers/trailers -> caller (all call options)
+	tps := append(bothTransports(), transportUnderTest{"httpnet", func(svr *scriptServer) (grpc.ClientConnInterface, func()) {
+		// a real net/http server and transport on the loopback interface: header lines really go over the wire
+		hs := httpgrpc.NewServer()
+		grpchantesting.RegisterTestServiceServer(hs, svr)
+		ts := httptest.NewServer(hs)
+		u, _ := url.Parse(ts.URL)
+		return &httpgrpc.Channel{Transport: ts.Client().Transport, BaseURL: u}, ts.Close
+	}})
+	for _, tp := range tps {
+		for i := 0; i < r.Budget(40, 1500); i++ {
+			kind := []string{"unary", "sstream", "cstream", "bidi"}[i%4]
+			edge := i%10 == 9 // values with leading/trailing spaces (printable ASCII, known HTTP finding)
+			reqMD, hdrMD, tlrMD := randMD(rng, edge), randMD(rng, edge), randMD(rng, edge)
+			fail := rng.Chance(25)
+			var seen metadata.MD
+			var smu sync.Mutex
+			svr := &scriptServer{}
+			work := func(ctx context.Context) error {
+				md, _ := metadata.FromIncomingContext(ctx)
+				smu.Lock()
+				seen = md.Copy()
+				smu.Unlock()
+				// headers in two steps, trailers in two steps (multi-valued keys keep all values in order)
+				h1, h2 := splitMD(hdrMD)
+				t1, t2 := splitMD(tlrMD)
+				grpc.SetHeader(ctx, h1)
+				grpc.SetHeader(ctx, h2)
+				grpc.SetTrailer(ctx, t1)
+				grpc.SetTrailer(ctx, t2)
+				if fail {
+					return status.Error(codes.Aborted, "scripted failure")
+				}
+				return nil
+			}
+			svr.unary = func(ctx context.Context, req *Msg) (*Msg, error) { return &Msg{Count: 1}, work(ctx) }
+			svr.sstream = func(req *Msg, s grpchantesting.TestService_ServerStreamServer) error {
+				if err := work(s.Context()); err != nil {
+					return err
+				}
+				return s.Send(&Msg{Count: 1})
+			}
+			svr.cstream = func(s grpchantesting.TestService_ClientStreamServer) error {
+				for {
+					if _, err := s.Recv(); err != nil {
+						break
+					}
+				}
+				if err := work(s.Context()); err != nil {
+					return err
+				}
+				return s.SendAndClose(&Msg{Count: 1})
+			}
+			svr.bidi = func(s grpchantesting.TestService_BidiStreamServer) error {
+				for {
+					if _, err := s.Recv(); err != nil {
+						break
+					}
+				}
+				if err := work(s.Context()); err != nil {
+					return err
+				}
+				return s.Send(&Msg{Count: 1})
+			}
+			ch, stop := tp.mk(svr)
+			ctx := metadata.NewOutgoingContext(context.Background(), reqMD)
+			var h1, h2, t1, t2 metadata.MD // duplicated call options: every target is filled
+			opts := []grpc.CallOption{grpc.Header(&h1), grpc.Header(&h2), grpc.Trailer(&t1), grpc.Trailer(&t2)}
+			var callErr error
+			var strHdr, strTlr metadata.MD
+			isStream := kind != "unary"
+			if !isStream {
+				callErr = ch.Invoke(ctx, mUnary, &Msg{}, &Msg{}, opts...)
+			} else {
+				desc, name := descSStream, mSStream
+				switch kind {
+				case "cstream":
+					desc, name = descCStream, mCStream
+				case "bidi":
+					desc, name = descBidi, mBidi
+				}
+				cs, err := ch.NewStream(ctx, desc, name, opts...)
+				if err != nil {
+					callErr = err
+				} else {
+					cs.SendMsg(&Msg{})
+					cs.CloseSend()
+					for {
+						var m Msg
+						if err := cs.RecvMsg(&m); err != nil {
+							if err != io.EOF {
+								callErr = err
+							}
+							break
+						}
+						if kind == "cstream" {
+							break
+						}
+					}
+					strHdr, _ = cs.Header()
+					strTlr = cs.Trailer()
+				}
+			}
+			stop()
+			c := map[string]interface{}{"transport": tp.name, "kind": kind, "handler_fails": fail, "edge_whitespace": edge,
+				"request_md": mdHex(reqMD), "headers": mdHex(hdrMD), "trailers": mdHex(tlrMD)}
+			r.Eval(fmt.Sprint("md-e2e", tp.name, kind, i), len(reqMD)+len(hdrMD)+len(tlrMD) > 0)
+			r.Count("md-e2e:" + tp.name + ":" + kind)
+			r.TracesOnImpl++
+			if (callErr != nil) != fail {
+				r.Violate(tp.name+"/metadata/call-outcome", "the call outcome is the handler's", sprintf("handler fails=%v, call error %v", fail, callErr), c, canonErr(callErr))
+				continue
+			}
+			suffix := ""
+			if edge {
+				suffix = "/edge-whitespace"
+			}
+			smu.Lock()
+			if ok, why := subsetMD(reqMD, seen); !ok {
+				r.Violate(tp.name+"/metadata/request-altered"+suffix, "every key/value pair the caller attaches as outgoing metadata is visible to the handler, multi-valued keys keeping all values in order and '-bin' values byte-exact", why, c, mdHex(seen))
+			}
+			smu.Unlock()
+			check := func(what string, want metadata.MD, gots ...metadata.MD) {
+				for gi, g := range gots {
+					if ok, why := subsetMD(want, g); !ok {
+						r.Violate(tp.name+"/metadata/"+what+"-altered"+suffix, "every header and trailer pair the handler sets is visible to the caller through Header()/Trailer() and through every grpc.Header/grpc.Trailer call option supplied", sprintf("%s target %d: %s", what, gi, why), c, mdHex(g))
+						return
+					}
+				}
+			}
+			if isStream {
+				check("header", hdrMD, h1, h2, strHdr)
+				check("trailer", tlrMD, t1, t2, strTlr)
+			} else {
+				check("header", hdrMD, h1, h2)
+				check("trailer", tlrMD, t1, t2)
+			}
+		}
+	}
+}
+
+// splitMD splits a metadata map into two maps that share keys: the first value(s) of every key in
+// the first, the rest in the second.
+func splitMD(md metadata.MD) (metadata.MD, metadata.MD) {
+	a, b := metadata.MD{}, metadata.MD{}
+	for k, vs := range md {
+		n := (len(vs) + 1) / 2
+		a[k] = append([]string(nil), vs[:n]...)
+		if n < len(vs) {
+			b[k] = append([]string(nil), vs[n:]...)
+		}
+	}
+	return a, b
+}
 
 // recvOnly's single use of the stream is the blocking RecvMsg itself: while it blocks, nothing else
 // in the program refers to the stream value the channel handed out.
